@@ -79,6 +79,8 @@ Definition mnot (m : mask) : mask := map negb m.
 Definition p2 (k : Z) : Q := Qpower 2 k.
 Definition ldexp (x : Q) (k : Z) : Q := x * p2 k.
 Definition ldexp_b (b : bnd) (k : Z) : bnd := option_map (fun a => ldexp a k) b.
+Arguments p2 : simpl never.
+Arguments ldexp : simpl never.
 
 (* vector equality up to Qeq, as a boolean (used by the correspondence checks) *)
 Fixpoint veqb (a b : vec) : bool :=
@@ -109,3 +111,19 @@ Fixpoint failing_from {A} (i : nat) (f : A -> bool) (cs : list A) : list nat :=
   | c :: cs' => if f c then failing_from (S i) f cs' else i :: failing_from (S i) f cs'
   end.
 Definition failing {A} (f : A -> bool) (cs : list A) : list nat := failing_from 0 f cs.
+
+(* is an exact rational a binary64 number (ignoring the exponent range)?  Used only to discard, and
+   count, generated cases on which the float computation cannot have been exact. *)
+Fixpoint pos_pow2 (d : positive) : bool :=
+  match d with xH => true | xO d' => pos_pow2 d' | xI _ => false end.
+Fixpoint pos_odd_part (n : positive) : positive :=
+  match n with xO n' => pos_odd_part n' | _ => n end.
+Definition representable (q : Q) : bool :=
+  let r := Qred q in
+  pos_pow2 (Qden r)
+  && match Qnum r with
+     | Z0 => true
+     | Zpos n | Zneg n => Pos.ltb (pos_odd_part n) 9007199254740992
+     end.
+Definition vrepr (v : vec) : bool := forallb representable v.
+Definition mrepr (M : mat) : bool := forallb vrepr M.
